@@ -262,6 +262,28 @@ fn condition_invert_optimize(
 /// that runs that function and run it.
 ///
 /// The result is the constant result of invoking the function.
+thread_local! {
+    static CONSTANT_FUN_FOLDING: std::cell::Cell<bool> = const { std::cell::Cell::new(false) };
+}
+
+struct ConstantFoldGuard;
+
+impl ConstantFoldGuard {
+    fn enter() -> Option<ConstantFoldGuard> {
+        if CONSTANT_FUN_FOLDING.with(|f| f.replace(true)) {
+            None
+        } else {
+            Some(ConstantFoldGuard)
+        }
+    }
+}
+
+impl Drop for ConstantFoldGuard {
+    fn drop(&mut self) {
+        CONSTANT_FUN_FOLDING.with(|f| f.set(false));
+    }
+}
+
 fn constant_fun_result(
     allocator: &mut Allocator,
     opts: Rc<dyn CompilerOpts>,
@@ -298,6 +320,16 @@ fn constant_fun_result(
             if !constant {
                 return None;
             }
+
+            // Compiling the callee below code generates every helper again, which
+            // optimizes their bodies and finds this same constant call again.  Only
+            // fold at the outermost level so that cannot recurse without bound.
+            let _folding = match ConstantFoldGuard::enter() {
+                Some(g) => g,
+                None => {
+                    return None;
+                }
+            };
 
             let compiled_body = {
                 let to_compile = CompileForm {
